@@ -381,6 +381,43 @@ def _cold_start_events(rnd, nproc):
     return out
 
 
+KNOWN_SITE = "Perm.occurrences_in with a pattern of more entries than the interpreter's recursion limit allows"
+KNOWN_DEV = "RecursionDepthIsPatternLength"
+
+
+def long_events(ctx, quick):
+    """Permutations of 1200 entries against short patterns (the search must not need a stack frame per entry of the
+    permutation), as LongPred events for Trace_C01; and one pattern of 1100 entries: there the search nests one generator
+    per pattern entry and exceeds the recursion limit - a listed finding when exactly that happens."""
+    import sys
+    n = 1200 if quick else 2000
+    inc, dec = list(range(n)), list(range(n - 1, -1, -1))
+    bump = inc[:n - 3] + [n - 1, n - 3, n - 2]
+    ev = []
+    for q, ps, kind in ((inc, [[1, 0]], "avoids"), (inc, [[1, 0]], "contains"), (dec, [[0, 1]], "avoids"), (bump, [[1, 0]], "contains"),
+                        ([2, 0, 1] + inc[3:], [[2, 0, 1]], "contains"), (inc, [[0, 1, 2], [0, 1]], "contains"), (dec, [[1, 0], [0]], "contains"),
+                        (inc, [[0, 1], [1, 0]], "avoids"), (dec, [[2, 1, 0]], "avoids")):
+        Q, PS = Perm(q), [Perm(x) for x in ps]
+        st, got = util.call((Q.contains if kind == "contains" else Q.avoids), *PS)
+        ev.append({"op": "LongPred", "kind": kind, "q": q, "ps": ps, "raised": st != "ok", "res": bool(got) if st == "ok" else False,
+                   "form": "%s on %d entries%s" % (kind, n, "" if st == "ok" else " raised " + str(got))})
+        ctx.case(("long", kind, tuple(map(tuple, ps)), q[-1]), nontrivial=True)
+    deep = max(1100, sys.getrecursionlimit() + 100)
+    st, got = util.call(Perm(range(deep + 100)).contains, Perm(range(deep)))
+    case = {"kind": "deep-pattern", "pattern": "identity(%d)" % deep, "perm": "identity(%d)" % (deep + 100)}
+    if st == "raise" and got == "RecursionError":
+        e = ctx.known_entry(KNOWN_SITE, KNOWN_DEV)
+        if e is not None:
+            ctx.known_finding(e, case)
+        else:
+            ctx.violation(case, "NoException", True, "RecursionError")
+    elif st == "raise":
+        ctx.violation(case, "NoException", True, got)
+    elif got is not True:
+        ctx.violation(case, "PredicatesAgree", True, got)
+    return ev
+
+
 def hardening_events(ctx, quick):
     """Recorded calls for Trace_C01 that vary what the exhaustive part keeps fixed: the container handed to the
     multi-pattern predicates, the role of a long-lived object (pattern in one call, permutation in the next),
@@ -502,6 +539,7 @@ def hardening_events(ctx, quick):
                 ev.append({"op": "Pred", "kind": "count", "q": list(q), "ps": [list(p)], "res": P.count_occurrences_in(Q)})
     # -- (e) a fresh interpreter whose very first call is a large query
     ev.extend(_cold_start_events(rnd, 4 if quick else 16))
+    ev.extend(long_events(ctx, quick))
     return ev
 
 
